@@ -11,15 +11,20 @@ use std::sync::atomic::{AtomicU64, Ordering};
 use vkit::{bad, ok, ok_trivial, Run, Verdict};
 
 /// index paths (all stage 0; no file/directory conflicts among them)
-const PATHS: [&str; 17] =
-    [".gitattributes", "A", "a*", "ab", "b", "a/a", "a/A", "a/b", "a/ab", "a/d/b", "a/d/e", "B/b", "c/a", "c/a*", "c/b", "c/d/ab", "d/a"];
+const PATHS: [&str; 20] = [
+    ".gitattributes", "A", "a*", "ab", "b", "a/a", "a/A", "a/b", "a/ab", "a/d/b", "a/d/e", "B/b", "c/a", "c/a*", "c/b", "c/d/ab", "d/a",
+    // shorter than / exactly as long as / longer than head+tail of the single-star specs `ab*ba`, `a*a`, `b*b` (`b` itself is
+    // the one-byte path for `b*b`; a file `a` cannot coexist with the directory a/ at stage 0)
+    "aba", "abba", "abxba",
+];
+const STAGE1: [&str; 0] = [];
 /// resulting attribute sets: only x: ab b a/d/b c/d/ab | x,-y: B/b | only y: A a/A | x,y: a/b a/ab | x=v,y: a/a | x=v: d/a |
 /// -x: c/a* c/b | -x,y: c/a | x explicitly unspecified (!x): a/d/e | nothing: .gitattributes a*
 const ATTRIBUTES: &str = "*b x\na/a x=v\nd/a x=v\nc/* -x\na/* y\nA y\nc/a y\nB/b -y\na/d/e !x\n";
 
 /// quick alphabet = the first QUICK_SPECS entries
-const QUICK_SPECS: usize = 22;
-const SPECS: [&str; 39] = [
+const QUICK_SPECS: usize = 28;
+const SPECS: [&str; 47] = [
     "a",
     "a/",
     "b",
@@ -43,6 +48,13 @@ const SPECS: [&str; 39] = [
     ":(attr:x=v y)",
     ":(attr:!x y)",
     ":(exclude,attr:x y)",
+    // a single `*` with literal text on both sides: head and tail must not overlap in the path
+    "a*a",
+    "ab*ba",
+    "a*b",
+    "b*b",
+    ":(icase)AB*BA",
+    ":(exclude)ab*ba",
     // thorough only
     "ab",
     "a/d",
@@ -61,6 +73,9 @@ const SPECS: [&str; 39] = [
     ":(attr:x !y)",
     ":(attr:y -x)c",
     ":(exclude,attr:-x y)",
+    // parser corner cases: `(` directly after short magic, empty keyword in long magic
+    ":!(icase)A",
+    ":(,icase)A",
 ];
 /// sub-alphabet for lists of three (thorough)
 const TRIPLE_SPECS: [&str; 9] = ["a", "*b", ":(glob)a/*", ":(icase)A", ":(exclude)a/b", ":!b", ":(top)a", ":(attr:x)", ":(attr:x y)"];
@@ -270,9 +285,16 @@ fn eval(root: &Path, c: &SpecCase) -> Verdict {
     if ours != git {
         let extra: Vec<_> = ours.difference(&git).collect();
         let missing: Vec<_> = git.difference(&ours).collect();
-        let class = match (extra.is_empty(), missing.is_empty()) {
-            (false, true) => "selects-more",
-            (true, false) => "selects-less",
+        // Open known finding: `(` directly after short magic (`:!(icase)A`). git ends the short form there and takes `(icase)A` as the
+        // path, gix_pathspec continues with long magic (its own parse test pins `:!(literal)some/*path`). Own class for such lists.
+        let short_then_paren = c.specs.iter().any(|s| {
+            let b = s.as_bytes();
+            b.len() > 2 && b[0] == b':' && matches!(b[1], b'!' | b'^' | b'/') && b[1..].iter().position(|c| !matches!(c, b'!' | b'^' | b'/')).map_or(false, |i| b[1 + i] == b'(')
+        });
+        let class = match (short_then_paren, extra.is_empty(), missing.is_empty()) {
+            (true, _, _) => "paren-after-short-magic",
+            (false, false, true) => "selects-more",
+            (false, true, false) => "selects-less",
             _ => "selects-different",
         };
         if std::env::var_os("C39_DEBUG").is_some() {
@@ -356,7 +378,7 @@ pub fn run(run: &'static Run) {
     let empty = String::from_utf8_lossy(&empty).trim().to_string();
     let mut input = Vec::new();
     for p in PATHS.iter().filter(|p| **p != ".gitattributes") {
-        input.extend_from_slice(format!("100644 {empty} 0\t{p}").as_bytes());
+        input.extend_from_slice(format!("100644 {empty} {}\t{p}", if STAGE1.contains(p) { 1 } else { 0 }).as_bytes());
         input.push(0);
     }
     vkit::git::git_in(&root, &["update-index", "-z", "--index-info"], &input);
